@@ -113,3 +113,181 @@ Proof.
       (* otherwise the loop ends here *)
       cbn [ins_fix]; (split; [apply nrr_make_black|]); rewrite ?plug_nrr, ?plug_bal; rbfin.
 Qed.
+
+Lemma insert_rb n t : is_rb t -> is_rb (insert n t).
+Proof.
+  intros Ht. unfold insert.
+  pose proof (descend_plug (nkey n) t []) as Hp. cbn [plug] in Hp. rewrite <- Hp in Ht.
+  apply plug_is_rb in Ht as (_ & (_ & Hn) & (_ & Hb)). cbn [col bh] in Hn, Hb.
+  destruct (ins_fix_rb (descend (nkey n) t []) E n E 0%nat) as [H1 H2]; cbn; auto.
+  split; [apply col_make_black|]. split; [auto|apply bal_make_black; auto].
+Qed.
+
+(* ---- remove ---- *)
+Lemma del_left_rb x pc pn w h :
+  nrr x -> bal x -> bh x = h -> nrr w -> bal w -> bh w = S h -> col w = Black ->
+  match del_left x pc pn w with
+  | Up t => nrr (make_black t) /\ bal t /\ bh t = (h + bk pc)%nat /\ col t = pc
+  | Done t => nrr t /\ bal t /\ bh t = (S h + bk pc)%nat /\ col t = pc
+  end.
+Proof.
+  intros Hx Hbx Hhx Hw Hbw Hhw Hcw.
+  destruct w as [|[|] wl wn wr]; [discriminate|discriminate|].
+  destruct wl as [|[|] a ln b]; destruct wr as [|[|] c rn d]; cbn [del_left]; rewrite ?col_T; rbfin.
+Qed.
+Lemma del_right_rb x pc pn w h :
+  nrr x -> bal x -> bh x = h -> nrr w -> bal w -> bh w = S h -> col w = Black ->
+  match del_right x pc pn w with
+  | Up t => nrr (make_black t) /\ bal t /\ bh t = (h + bk pc)%nat /\ col t = pc
+  | Done t => nrr t /\ bal t /\ bh t = (S h + bk pc)%nat /\ col t = pc
+  end.
+Proof.
+  intros Hx Hbx Hhx Hw Hbw Hhw Hcw.
+  destruct w as [|[|] wl wn wr]; [discriminate|discriminate|].
+  destruct wl as [|[|] a ln b]; destruct wr as [|[|] c rn d]; cbn [del_right]; rewrite ?col_T; rbfin.
+Qed.
+
+Lemma bh_make_black_red x : col x = Red -> bh (make_black x) = S (bh x).
+Proof. destruct x as [|[|] l n r]; cbn; try discriminate. intros _. lia. Qed.
+Lemma croot_black ctx c : croot ctx c = Black -> croot ctx Black = Black.
+Proof. destruct ctx; cbn; auto. Qed.
+
+Ltac dfin := cbn [croot cnrr cbal fsib fcol bk] in *; repeat split; auto; try discriminate; try lia;
+  try (eapply cbal_eq; [eassumption|lia]).
+
+(* x is a sub-tree one black node short of what its place requires *)
+Lemma del_fix_rb : forall ctx x,
+  nrr (make_black x) -> bal x -> cnrr ctx Black -> cbal ctx (S (bh x)) -> croot ctx Black = Black ->
+  is_rb (del_fix x ctx).
+Proof.
+  induction ctx as [|f up IH]; intros x Hx Hbx Hn Hb Hr; cbn [del_fix].
+  - split; [apply col_make_black|]. split; [auto|apply bal_make_black; auto].
+  - destruct (col x) eqn:Hcx.
+    { apply plug_is_rb. rewrite col_make_black, bal_make_black, (bh_make_black_red x Hcx). auto. }
+    rewrite (make_black_id x Hcx) in Hx.
+    destruct f as [pc pn w|pc w pn]; cbn [cnrr cbal croot fsib fcol] in Hn, Hb, Hr;
+      destruct Hn as (Hw & Hpc & Hn); destruct Hb as (Hbw & Hhw & Hb).
+    + destruct w as [|[|] wl wn wr].
+      * discriminate.
+      * (* red sibling *)
+        destruct pc; [destruct (Hpc eq_refl); discriminate|]. clear Hpc.
+        cbn [nrr bal bh bk] in Hw, Hbw, Hhw. destruct Hw as (Hwl & Hwr & Hcw). destruct (Hcw eq_refl) as [Hcl Hcr].
+        destruct Hbw as (Hbl & Hbr & Hlr).
+        pose proof (del_left_rb x Red pn wl (bh x) Hx Hbx eq_refl Hwl Hbl ltac:(lia) Hcl) as Hd.
+        destruct (del_left x Red pn wl) as [t|t]; destruct Hd as (Ht & Hbt & Hht & Hct).
+        -- apply plug_is_rb. rewrite col_make_black, bal_make_black, (bh_make_black_red t Hct).
+           dfin.
+        -- rewrite make_black_id by (rewrite col_plug; cbn [croot fcol]; auto).
+           apply plug_is_rb. dfin.
+      * pose proof (del_left_rb x pc pn (T Black wl wn wr) (bh x) Hx Hbx eq_refl Hw Hbw Hhw eq_refl) as Hd.
+        destruct (del_left x pc pn (T Black wl wn wr)) as [t|t]; destruct Hd as (Ht & Hbt & Hht & Hct).
+        -- cbn [bk] in *. apply IH; auto; [eapply cnrr_black; eauto|eapply cbal_eq; [eassumption|lia]|eapply croot_black; eauto].
+        -- rewrite make_black_id by (rewrite col_plug, Hct; auto).
+           apply plug_is_rb. rewrite Hct. dfin.
+    + destruct w as [|[|] wl wn wr].
+      * discriminate.
+      * destruct pc; [destruct (Hpc eq_refl); discriminate|]. clear Hpc.
+        cbn [nrr bal bh bk] in Hw, Hbw, Hhw. destruct Hw as (Hwl & Hwr & Hcw). destruct (Hcw eq_refl) as [Hcl Hcr].
+        destruct Hbw as (Hbl & Hbr & Hlr).
+        pose proof (del_right_rb x Red pn wr (bh x) Hx Hbx eq_refl Hwr Hbr ltac:(lia) Hcr) as Hd.
+        destruct (del_right x Red pn wr) as [t|t]; destruct Hd as (Ht & Hbt & Hht & Hct).
+        -- apply plug_is_rb. rewrite col_make_black, bal_make_black, (bh_make_black_red t Hct).
+           dfin.
+        -- rewrite make_black_id by (rewrite col_plug; cbn [croot fcol]; auto).
+           apply plug_is_rb. dfin.
+      * pose proof (del_right_rb x pc pn (T Black wl wn wr) (bh x) Hx Hbx eq_refl Hw Hbw Hhw eq_refl) as Hd.
+        destruct (del_right x pc pn (T Black wl wn wr)) as [t|t]; destruct Hd as (Ht & Hbt & Hht & Hct).
+        -- cbn [bk] in *. apply IH; auto; [eapply cnrr_black; eauto|eapply cbal_eq; [eassumption|lia]|eapply croot_black; eauto].
+        -- rewrite make_black_id by (rewrite col_plug, Hct; auto).
+           apply plug_is_rb. rewrite Hct. dfin.
+Qed.
+
+(* unlinking a node that has no left (resp. no right) child *)
+Lemma del_finish_rb_l ctx yc yn yr : is_rb (plug ctx (T yc E yn yr)) -> is_rb (del_finish yc yr ctx).
+Proof.
+  intros H. apply plug_is_rb in H as (Hr & (Hy & Hn) & (Hby & Hb)).
+  rewrite col_T in *. cbn [nrr bal bh] in Hy, Hby, Hb. destruct Hy as (_ & Hyr & Hc). destruct Hby as (_ & Hbyr & Hh).
+  destruct yc; cbn [del_finish bk] in *.
+  - destruct (Hc eq_refl) as [_ Hcr]. apply plug_is_rb. rewrite Hcr.
+    assert (ctx <> []) by (intros ->; discriminate).
+    rewrite (croot_indep ctx Black Red) by auto. repeat split; auto; [eapply cnrr_black; eauto|].
+    eapply cbal_eq; [eassumption|lia].
+  - apply del_fix_rb; auto; [apply nrr_make_black; auto|eapply cbal_eq; [eassumption|lia]].
+Qed.
+Lemma del_finish_rb_r ctx yc yl yn : is_rb (plug ctx (T yc yl yn E)) -> is_rb (del_finish yc yl ctx).
+Proof.
+  intros H. apply plug_is_rb in H as (Hr & (Hy & Hn) & (Hby & Hb)).
+  rewrite col_T in *. cbn [nrr bal bh] in Hy, Hby, Hb. destruct Hy as (Hyl & _ & Hc). destruct Hby as (Hbyl & _ & Hh).
+  destruct yc; cbn [del_finish bk] in *.
+  - destruct (Hc eq_refl) as [Hcl _]. apply plug_is_rb. rewrite Hcl.
+    assert (ctx <> []) by (intros ->; discriminate).
+    rewrite (croot_indep ctx Black Red) by auto. repeat split; auto; [eapply cnrr_black; eauto|].
+    eapply cbal_eq; [eassumption|lia].
+  - apply del_fix_rb; auto; [apply nrr_make_black; auto|eapply cbal_eq; [eassumption|lia]].
+Qed.
+
+(* the invariants do not look at the nodes *)
+Lemma is_rb_frame_node a b c l n n' t :
+  is_rb (plug (a ++ FR c l n :: b) t) <-> is_rb (plug (a ++ FR c l n' :: b) t).
+Proof. rewrite !plug_app. cbn [plug fill]. rewrite !plug_is_rb. cbn [nrr bal bh]. rewrite !col_T. tauto. Qed.
+
+Lemma remove_at_rb ctx zc zl zn zr : is_rb (plug ctx (T zc zl zn zr)) -> is_rb (remove_at ctx zc zl zn zr).
+Proof.
+  intros H. unfold remove_at. destruct zl as [|lc ll ln lr].
+  - apply del_finish_rb_l with (yn := zn); auto.
+  - destruct zr as [|rc rl rn rr].
+    + apply del_finish_rb_r with (yn := zn); auto.
+    + destruct (split_min rc rl rn rr []) as [[[fr yc] yn] yr] eqn:Hm.
+      apply split_min_spec in Hm as (fr' & -> & Hp & _). rewrite app_nil_r.
+      apply del_finish_rb_l with (yn := yn).
+      apply (is_rb_frame_node fr' ctx zc _ zn yn). rewrite plug_app, Hp. exact H.
+Qed.
+
+Lemma remove_rb id t : is_rb t -> is_rb (remove id t).
+Proof.
+  intros H. unfold remove. destruct (locate id t []) as [[[[[ctx c] l] n] r]|] eqn:Hl; auto.
+  apply locate_spec in Hl as [Hp _]. cbn [plug] in Hp. apply remove_at_rb. rewrite Hp. exact H.
+Qed.
+
+Lemma update_at_rb t ctx c l n r newk :
+  is_rb t -> plug ctx (T c l n r) = t -> is_rb (fst (update_at t ctx c l n r newk)).
+Proof.
+  intros H Hp. unfold update_at. destruct (upd_decide _ _ _); cbn [fst]; auto.
+  - destruct (find newk t); cbn [fst]; auto. apply insert_rb, remove_at_rb. rewrite Hp; auto.
+  - rewrite <- Hp in H. rewrite plug_is_rb in *. cbn [nrr bal bh] in *. rewrite !col_T in *. exact H.
+Qed.
+
+(* ---- consequences of the invariants ---- *)
+Lemma paths_bh t : bal t -> forall h, In h (paths t) -> h = bh t.
+Proof.
+  induction t as [|c l IHl n r IHr]; cbn [bal paths bh]; intros Hb h Hin.
+  - destruct Hin as [<-|[]]. reflexivity.
+  - destruct Hb as (Hl & Hr & He). apply in_map_iff in Hin as (h' & <- & Hin).
+    apply in_app_or in Hin as [Hin|Hin]; [rewrite (IHl Hl h' Hin)|rewrite (IHr Hr h' Hin), He]; reflexivity.
+Qed.
+
+Lemma size_bh t : bal t -> 2 ^ bh t <= size t + 1.
+Proof.
+  induction t as [|c l IHl n r IHr]; cbn [bal bh size]; intros Hb; [cbn; lia|].
+  destruct Hb as (Hl & Hr & He). specialize (IHl Hl). specialize (IHr Hr). rewrite <- He in IHr.
+  destruct c; cbn [bk]; rewrite ?Nat.add_0_r, ?Nat.add_1_r, ?Nat.pow_succ_r'; lia.
+Qed.
+
+Lemma depth_bh t : nrr t -> bal t -> depth t <= 2 * bh t + match col t with Red => 1 | Black => 0 end.
+Proof.
+  induction t as [|c l IHl n r IHr]; cbn [nrr bal bh depth]; intros Hn Hb; [cbn; lia|].
+  destruct Hn as (Hnl & Hnr & Hc). destruct Hb as (Hl & Hr & He).
+  specialize (IHl Hnl Hl). specialize (IHr Hnr Hr). rewrite col_T.
+  destruct c; cbn [bk].
+  - destruct (Hc eq_refl) as [Hcl Hcr]. rewrite Hcl in IHl. rewrite Hcr in IHr. lia.
+  - destruct (col l), (col r); lia.
+Qed.
+
+Lemma depth_log t : is_rb t -> depth t <= 2 * Nat.log2 (size t + 1).
+Proof.
+  intros (Hc & Hn & Hb). pose proof (depth_bh t Hn Hb) as H1. rewrite Hc in H1.
+  pose proof (size_bh t Hb) as H2.
+  assert (bh t <= Nat.log2 (size t + 1)).
+  { rewrite <- (Nat.log2_pow2 (bh t)) by lia. apply Nat.log2_le_mono. exact H2. }
+  lia.
+Qed.
